@@ -379,9 +379,33 @@ class ArrayExpr(SingletonExpr):
                 return True
         return False
 
+    def _has_grid_sensitive_ancestor(self, expr, dependents):
+        """Whether any transitive consumer of ``expr`` observes a block grid."""
+        seen = set()
+        stack = [expr]
+        while stack:
+            current = stack.pop()
+            if self._has_grid_sensitive_dependent(current, dependents):
+                return True
+            for ref in dependents.get(current._name, ()):
+                node = ref()
+                if node is not None and node._name not in seen:
+                    seen.add(node._name)
+                    stack.append(node)
+        return False
+
     def _preserve_grid_contract(self, parent, result, dependents):
         """Decline pushdowns that would alter a grid-sensitive parent's input."""
         if not self._has_grid_sensitive_dependent(parent, dependents):
+            # The nodes between ``parent`` and a grid-sensitive consumer derive
+            # their chunks from ``parent``'s, so a rewrite that changes
+            # ``parent``'s chunks changes the grid that consumer observes.
+            if (
+                result is not None
+                and getattr(result, "chunks", None) != parent.chunks
+                and self._has_grid_sensitive_ancestor(parent, dependents)
+            ):
+                return None
             return result
         if result is None:
             return None
